@@ -5,6 +5,35 @@
 #include <new>
 #include <xsimd/xsimd.hpp>
 
+// The system allocator underneath aligned_allocator is observed too (link with --wrap=posix_memalign --wrap=free): the number of
+// blocks obtained from posix_memalign and not yet returned through free is logged after every allocate / deallocate, so that a
+// block the allocator keeps for ever (a leak INSIDE deallocate) shows in the trace.
+extern "C"
+{
+    int __real_posix_memalign(void**, size_t, size_t);
+    void __real_free(void*);
+    static void* g_sys[1024];
+    static int g_nsys = 0;
+    int __wrap_posix_memalign(void** p, size_t a, size_t s)
+    {
+        int r = __real_posix_memalign(p, a, s);
+        if (r == 0 && *p && g_nsys < 1024)
+            g_sys[g_nsys++] = *p;
+        return r;
+    }
+    void __wrap_free(void* p)
+    {
+        if (p)
+            for (int i = 0; i < g_nsys; ++i)
+                if (g_sys[i] == p)
+                {
+                    g_sys[i] = g_sys[--g_nsys];
+                    break;
+                }
+        __real_free(p);
+    }
+}
+
 namespace
 {
     struct S48
@@ -16,6 +45,7 @@ namespace
         void* p;
         uint64_t bytes;
         uint8_t tag;
+        uint64_t n; // the element count of the request: deallocate(p, n) gets the same n, as containers pass it
     };
     Slot g_slots[64];
 
@@ -59,8 +89,9 @@ namespace
         uint64_t n = vd::ld<uint64_t>(a.in[0]);
         Slot& s = g_slots[a.imm & 63];
         memset(o.bytes, 0, 32);
-        o.len = 27;
+        o.len = 28;
         o.bytes[25] = (uint8_t)sizeof(T);
+        s.n = n;
         try
         {
             T* p = al.allocate(n);
@@ -87,6 +118,7 @@ namespace
         {
             o.bytes[0] = 3;
         }
+        o.bytes[27] = (uint8_t)(g_nsys > 255 ? 255 : g_nsys); // system blocks outstanding after the call
     }
     // deallocate: imm = slot. out: [pointer (8), pattern intact (1)]
     template <class T, size_t A>
@@ -96,10 +128,12 @@ namespace
         Slot& s = g_slots[a.imm & 63];
         vd::st<uint64_t>(o.bytes, (uint64_t)(uintptr_t)s.p);
         o.bytes[8] = (s.p == nullptr || s.bytes == 0 || intact(reinterpret_cast<uint8_t*>(s.p), s.bytes, s.tag)) ? 1 : 0;
-        al.deallocate(reinterpret_cast<T*>(s.p), 0);
+        al.deallocate(reinterpret_cast<T*>(s.p), s.n);
         s.p = nullptr;
         s.bytes = 0;
-        o.len = 9;
+        s.n = 0;
+        o.bytes[9] = (uint8_t)(g_nsys > 255 ? 255 : g_nsys); // system blocks outstanding after the call
+        o.len = 10;
     }
     // the allocator obtained through rebind<U>::other (what containers use) keeps the alignment
     template <class T, size_t A>
